@@ -16,8 +16,8 @@ P = {
          "Every ordered pair of the FQ2 alphabet through + - * == and commutativity, operator forms, associativity/distributivity triples, every unary observation, and agreement of the internal squaring with multiplication observed through G2::new(s^2 x, s^3 y, s) for every s; compared with pair arithmetic over BigUint (u^2 = -2); lazy-reduction bands (carry limb x number of subtractions) all required non-empty.",
          "Holds on the enumerated alphabet only. Trusted: rustc, num-bigint, reference model.",
          "DESIGN.md 5 (C12)"),
- "C14": (True, GRID + "; squares, non-residues, both axes of Fq2 on both sides of q/2, every small element of Fq2, every small x as a compressed G1 encoding",
-         "Fq::sqrt and Fq2::sqrt on a, a^2, 2a^2, -a^2 / x, x^2, nu*x^2 for every alphabet member and on every real and purely imaginary element of the axis alphabet (all four residuosity x half-plane classes required non-empty), decided by Euler's / the norm criterion with Some(s) squared back; G1::from_compressed on EVERY x below the bound.",
+ "C14": (True, GRID + "; squares, non-residues, both axes of Fq2 on both sides of q/2, every small element of Fq2, halving operands with carry-boundary stored words, every small x as a compressed G1 encoding",
+         "Fq::sqrt and Fq2::sqrt on a, a^2, 2a^2, -a^2 / x, x^2, nu*x^2 for every alphabet member and on every real and purely imaginary element of the axis alphabet (all four residuosity x half-plane classes required non-empty), on inputs whose internal halving operands (-a, a+w, a-w) have stored words with one-runs across 1-3 limb boundaries, decided by Euler's / the norm criterion with Some(s) squared back; G1::from_compressed on EVERY x below the bound.",
          "Which root is returned is unconstrained. Trusted: rustc, num-bigint.",
          "DESIGN.md 5 (C14)"),
  "C13": (True, GRID + "; every length 0..=70, every byte string of length <= 2, every short string over a 14-character alphabet, every Unicode scalar value in four string contexts, every bit index 0..=300",
@@ -28,12 +28,12 @@ P = {
          "bytes(e(aP1,bP2)) == bytes(g^(ab)) for every (a,b) of the scalar alphabet (0, 1, 2, r-1, lambda, long runs, ...) in three representations per side through pairing, fast_pairing and G2Prepared::pairing; e(P1,P2)^(ab) == e(aP1,bP2), g^(r-1)*g == 1, additivity in both arguments with library-computed sums of mixed representatives, every identity representative (including P - P and new(x,y,0)) against every value, non-degeneracy.",
          "Decided through discrete logs (every group element is a multiple of the generator); g is pinned by the published vectors. Enumerated alphabet only.",
          "DESIGN.md 5 (C01)"),
- "C02": (True, GRID + "; K2 x K2 direct textbook pairings, one operand rescaled by every special field value, published vectors",
-         "For every (a,b) the reference model computes a*P1, b*P2 and the R-ate pairing by the textbook algorithm (no discrete-log shortcut, nothing from the library enters the oracle); the library's 384 bytes must be identical for three representatives per side and all three entry points; the standard's three published values are reproduced through every entry point.",
+ "C02": (True, GRID + "; K2 x K2 direct textbook pairings, one operand rescaled by every special field value, G1 points chosen by the stored word of the first line coefficient, published vectors",
+         "For every (a,b) the reference model computes a*P1, b*P2 and the R-ate pairing by the textbook algorithm (no discrete-log shortcut, nothing from the library enters the oracle); the library's 384 bytes must be identical for three representatives per side and all three entry points; the standard's three published values are reproduced through every entry point; G1 points of unknown discrete log whose x puts a carry-boundary stored word into the first tangent coefficient are paired through all entry points against the textbook value of their coordinates.",
          "Enumerated scalar alphabet only. The textbook implementation is bound to the standard by its published vectors.",
          "DESIGN.md 5 (C02), Appendix A"),
  "C03": (True, GRID + "; all concrete values^2 x three entry points; all call sequences on a prepared value up to a depth",
-         "All representatives (8 non-identity kinds, 8 identity kinds) of every discrete log on both sides through all three entry points give byte-identical results equal to the model value; every sequence of pairing(&P_i) calls (with optional clone) up to the depth bound on one prepared value returns the model value at every step; every ordered pair of calls of the stateless entry points, run back to back on one thread, returns the model value (hidden state across calls).",
+         "All representatives (8 non-identity kinds, 8 identity kinds) of every discrete log on both sides through all three entry points give byte-identical results equal to the model value; every sequence of pairing(&P_i) calls (with optional clone) up to the depth bound on one prepared value returns the model value at every step; every ordered pair of calls of the stateless entry points, run back to back on one thread, returns the model value (hidden state across calls); G1 points whose x puts a carry-boundary stored word into the halved first tangent coefficient of the Jacobian Miller loop give the textbook value through all three entry points.",
          "Enumerated alphabet, bounded call depth.",
          "DESIGN.md 5 (C03)"),
  "C11": (True, GRID + "; Gamma^2 products and equalities, exponent-law quadruples, every small exponent",
@@ -52,7 +52,7 @@ P = {
          "Every case of the union of the quick alphabets (field pairs, conversions, every short byte string, set_bit indices, decoder corpus, group pairs, scalar multiples, pairings, Gt operations) is executed by the same driver in both builds and the observation records (result bytes / Err variant / None / panic text) must be identical; additionally 14 (thorough: 17) oracle-carrying checks, including the BFS machines, run in the dbg build and must not panic or deviate from the model.",
          "dbg keeps opt-level 3 and enables exactly debug-assertions and overflow-checks; identical panics in both profiles (documented unwraps) are not counted. Enumerated alphabets only.",
          "DESIGN.md 5 (C18)"),
- "C04": (True, GRID + "; all ordered pairs of concrete point values (discrete log x Jacobian representative), all triples of a small set, representatives whose Jacobian X / Y / Z coordinate is a chosen boundary field value",
+ "C04": (True, GRID + "; all ordered pairs of concrete point values (discrete log x Jacobian representative), all triples of a small set, representatives whose Jacobian X / Y / Z coordinate (or the square of X / Y) is a chosen boundary field value, incl. the quotient-boundary bands of double / triple",
          "Every ordered pair over (D x {Aff, LibMul, LibSub, Scaled(2), Scaled(-1), Scaled(generic), ScaledX1, ScaledY1}) + 8 identity representatives for A+B, B+A, A-B, (A-B)+B, unary laws on every value, boundary field values pushed through the adder as Jacobian scalings, all triples of a small set; abstraction (x/z^2, y/z^3) compared with textbook affine chord-and-tangent on reference points; adder arm x relation histogram with every class required.",
          "Enumerated alphabet only. Trusted: rustc, num-bigint, reference model.",
          "DESIGN.md 5 (C04)"),
